@@ -32,6 +32,7 @@ def family (name : String) (seed idx : Nat) : Option Case :=
   | "wild" => some (genItemCaseR cfgWild name seed idx)
   | "strip" => some (genItemCaseR cfgStrip name seed idx)
   | "impl" => some (genImplCase name seed idx)
+  | "other" => some (genOtherCase name seed idx)
   | _ => none
 
 def familyCount (name : String) : Option Nat :=
